@@ -20,8 +20,12 @@
 (* One action per hook event, chains as in UdpMux.tla:                     *)
 (*   left :  Lookup -> hit: RegisterOutgoing -> S5Lookup -> SendOk|SendErr *)
 (*                          -> [MetricOut]                                 *)
-(*           Lookup -> miss: InsertPipeEntry -> AssocAddPeer | AssocOpen   *)
-(*                          | AssocOpenErr -> NewConn(ok|err) -> ...       *)
+(*           Lookup -> miss: AssocAddPeer | AssocOpenStart -> (await)      *)
+(*                          AssocOpenDone | AssocOpenErr | cancelled by    *)
+(*                          the tick -> NewConn(ok|err|cancelled) ->       *)
+(*                          InsertPipeEntry -> RegisterOutgoing -> ...     *)
+(*           (InsertFirst = TRUE: InsertPipeEntry directly after the miss, *)
+(*            as the code was: must-violate configuration)                 *)
 (*   right:  ReadReply -> [MetricIn] -> RegisterIncoming ->                *)
 (*                          [DnsDone -> PeerClosed -> [AssocRelease]]      *)
 (*           AssocError -> ReadClose (one per peer of the association)     *)
@@ -39,7 +43,11 @@ CONSTANTS
     Flows, Src, Dst, Dns,   \* flows, [Flows -> address name], plain-DNS flows
     T, P, J,                \* idle timeout, tick period, largest tick lateness
     MaxNow, MaxOps, MaxQ,
-    Hist                    \* TRUE: full histories; FALSE: last element only (model checking)
+    Hist,                   \* TRUE: full histories; FALSE: last element only (model checking)
+    InsertFirst,            \* TRUE: the code AS IT WAS - the pipe-table entry is made before the awaited
+                            \* on_new_udp_connection (and withdrawn only if that returns an error);
+                            \* FALSE: the intended behaviour (and the code as it is now) - the entry is made after it
+    WithHold                \* model checking: the SOCKS5 server may hold its UDP ASSOCIATE reply
 
 Key(s, d) == [s |-> s, d |-> d]
 K(f) == Key(Src[f], Dst[f])
@@ -59,8 +67,8 @@ VARIABLES
     inq, lpc, lcur,                                  \* left chain
     rpc, rcur, rclose,                               \* right chain; rclose: keys whose UdpClose is pending
     tpc, texp, tcur, tickAt,                         \* timer chain
-    now, relayDown, refuse, stalled, closing, ops, nextId,   \* environment
-    toPeer, toClient, done, met, got, everDown, everRefused, \* histories / ghosts
+    now, relayDown, refuse, hold, stalled, closing, ops, nextId,   \* environment
+    toPeer, toClient, done, met, got, everDown, everRefused, everHeld, \* histories / ghosts
     alive, began
 
 pipeV  == << pipeTab, lastAct, expiredOnce >>
@@ -68,8 +76,8 @@ fwdV   == << assoc, gauge, assocErr, icmpFly, seen, rxq >>
 leftV  == << inq, lpc, lcur >>
 rightV == << rpc, rcur, rclose >>
 timerV == << tpc, texp, tcur, tickAt >>
-envV   == << now, relayDown, refuse, stalled, closing, ops, nextId >>
-histV  == << toPeer, toClient, done, met, got, everDown, everRefused >>
+envV   == << now, relayDown, refuse, hold, stalled, closing, ops, nextId >>
+histV  == << toPeer, toClient, done, met, got, everDown, everRefused, everHeld >>
 lifeV  == << alive, began >>
 vars   == << pipeV, fwdV, leftV, rightV, timerV, envV, histV, lifeV >>
 
@@ -80,9 +88,12 @@ With(fn, k, v) == [x \in (DOMAIN fn) \cup {k} |-> IF x = k THEN v ELSE fn[x]]
 KeysOf(src) == {k \in AllKeys : k.s = src}
 
 Quiet == lpc = "idle" /\ rpc = "idle" /\ tpc = "idle"
+\* the left pipe is parked in the awaited on_new_udp_connection (TCP connect + SOCKS5 handshake):
+\* the right pipe runs, time passes, and the expiry tick of exchange() drops the pipe's future
+Parked == lpc = "opening" /\ rpc = "idle" /\ tpc = "idle"
 LeftMay  == alive /\ began /\ rpc = "idle" /\ tpc = "idle"
 \* the right pipe may run while the left one is parked in the send on the association socket
-RightMay == alive /\ began /\ lpc \in {"idle", "send"} /\ tpc = "idle"
+RightMay == alive /\ began /\ lpc \in {"idle", "send", "opening"} /\ tpc = "idle"
 
 Init ==
     /\ pipeTab = << >> /\ lastAct = [k \in AllKeys |-> 0] /\ expiredOnce = {}
@@ -90,9 +101,9 @@ Init ==
     /\ inq = << >> /\ lpc = "idle" /\ lcur = Nil
     /\ rpc = "idle" /\ rcur = [lab |-> NoKey, len |-> 0] /\ rclose = {}
     /\ tpc = "idle" /\ texp = {} /\ tcur = NoKey /\ tickAt = 0
-    /\ now = 0 /\ relayDown = FALSE /\ refuse = FALSE /\ stalled = FALSE /\ closing = FALSE /\ ops = 0 /\ nextId = 1
+    /\ now = 0 /\ relayDown = FALSE /\ refuse = FALSE /\ hold = FALSE /\ stalled = FALSE /\ closing = FALSE /\ ops = 0 /\ nextId = 1
     /\ toPeer = << >> /\ toClient = << >> /\ done = << >> /\ met = [d \in Dirs |-> 0] /\ got = {}
-    /\ everDown = FALSE /\ everRefused = FALSE
+    /\ everDown = FALSE /\ everRefused = FALSE /\ everHeld = FALSE
     /\ alive = TRUE /\ began = FALSE
 
 Reset ==
@@ -101,9 +112,9 @@ Reset ==
     /\ inq' = << >> /\ lpc' = "idle" /\ lcur' = Nil
     /\ rpc' = "idle" /\ rcur' = [lab |-> NoKey, len |-> 0] /\ rclose' = {}
     /\ tpc' = "idle" /\ texp' = {} /\ tcur' = NoKey /\ tickAt' = 0
-    /\ now' = 0 /\ relayDown' = FALSE /\ refuse' = FALSE /\ stalled' = FALSE /\ closing' = FALSE /\ ops' = 0 /\ nextId' = 1
+    /\ now' = 0 /\ relayDown' = FALSE /\ refuse' = FALSE /\ hold' = FALSE /\ stalled' = FALSE /\ closing' = FALSE /\ ops' = 0 /\ nextId' = 1
     /\ toPeer' = << >> /\ toClient' = << >> /\ done' = << >> /\ met' = [d \in Dirs |-> 0] /\ got' = {}
-    /\ everDown' = FALSE /\ everRefused' = FALSE
+    /\ everDown' = FALSE /\ everRefused' = FALSE /\ everHeld' = FALSE
     /\ alive' = TRUE /\ began' = FALSE
 
 Begin ==
@@ -133,14 +144,14 @@ PeerClosedEffect(arg) ==
 Lookup ==
     /\ LeftMay /\ lpc = "idle" /\ inq # << >>
     /\ lcur' = Head(inq) /\ inq' = Tail(inq)
-    /\ lpc' = IF K(Head(inq).f) \in DOMAIN pipeTab THEN "reg" ELSE "ins"
+    /\ lpc' = IF K(Head(inq).f) \in DOMAIN pipeTab THEN "reg" ELSE IF InsertFirst THEN "ins" ELSE "open"
     /\ UNCHANGED << pipeV, fwdV, rightV, timerV, envV, histV, lifeV >>
 
 InsertPipeEntry ==
     /\ lpc = "ins"
     /\ pipeTab' = With(pipeTab, K(lcur.f), [la |-> now, pend |-> IF lcur.f \in Dns THEN 0 ELSE -1])
     /\ lastAct' = [lastAct EXCEPT ![K(lcur.f)] = now]
-    /\ lpc' = "open"
+    /\ lpc' = IF InsertFirst THEN "open" ELSE "reg"
     /\ UNCHANGED << expiredOnce, fwdV, inq, lcur, rightV, timerV, envV, histV, lifeV >>
 
 \* on_new_udp_connection: the source already has an association, the destination joins its peers
@@ -151,9 +162,16 @@ AssocAddPeer ==
     /\ lpc' = "conn"
     /\ UNCHANGED << pipeV, gauge, assocErr, icmpFly, seen, rxq, inq, lcur, rightV, timerV, envV, histV, lifeV >>
 
-\* the first flow of a source: UDP ASSOCIATE through the SOCKS5 server, one guard of the gauge
-AssocOpen ==
-    /\ lpc = "open" /\ Src[lcur.f] \notin DOMAIN assoc /\ ~refuse
+\* the first flow of a source: on_new_udp_connection starts the TCP connect and the SOCKS5
+\* handshake (UDP ASSOCIATE) and awaits the server's reply
+AssocOpenStart ==
+    /\ lpc = "open" /\ Src[lcur.f] \notin DOMAIN assoc
+    /\ lpc' = "opening"
+    /\ UNCHANGED << pipeV, fwdV, inq, lcur, rightV, timerV, envV, histV, lifeV >>
+
+\* the server answered: the association is entered with its first peer, one guard of the gauge
+AssocOpenDone ==
+    /\ lpc = "opening" /\ rpc = "idle" /\ ~hold /\ ~refuse
     /\ assoc' = With(assoc, Src[lcur.f], {Dst[lcur.f]})
     /\ gauge' = gauge + 1
     /\ lpc' = "conn"
@@ -161,20 +179,35 @@ AssocOpen ==
 
 \* the SOCKS5 server refuses: no association, no gauge
 AssocOpenErr ==
-    /\ lpc = "open" /\ Src[lcur.f] \notin DOMAIN assoc /\ refuse
+    /\ lpc = "opening" /\ rpc = "idle" /\ ~hold /\ refuse
     /\ lpc' = "connerr"
     /\ UNCHANGED << pipeV, fwdV, inq, lcur, rightV, timerV, envV, histV, lifeV >>
 
+\* exchange()'s T/4 timeout fires while the left pipe is parked in the handshake: the future is
+\* dropped (the TCP connection with it), first the forwarder's part ...
+OpenCancelled ==
+    /\ alive /\ Parked /\ hold /\ now >= tickAt      \* only a reply that is held spans a tick
+    /\ lpc' = "cancelled"
+    /\ UNCHANGED << pipeV, fwdV, inq, lcur, rightV, timerV, envV, histV, lifeV >>
+
+\* ... then the pipe's: the datagram is lost, and NOTHING of the flow may be left behind (with
+\* InsertFirst the entry made before the await stays: that is the defect); the tick follows
+NewConnCancelled ==
+    /\ lpc = "cancelled"
+    /\ done' = Record(done, [f |-> lcur.f, id |-> lcur.id, out |-> "cancelled"])
+    /\ lpc' = "tickdue" /\ lcur' = Nil
+    /\ UNCHANGED << pipeV, fwdV, inq, rightV, timerV, envV, toPeer, toClient, met, got, everDown, everRefused, everHeld, lifeV >>
+
 NewConnOk ==
-    /\ lpc = "conn" /\ lpc' = "reg"
+    /\ lpc = "conn" /\ lpc' = IF InsertFirst THEN "reg" ELSE "ins"
     /\ UNCHANGED << pipeV, fwdV, inq, lcur, rightV, timerV, envV, histV, lifeV >>
 
 NewConnErr ==
     /\ lpc = "connerr"
-    /\ pipeTab' = Without(pipeTab, K(lcur.f))
+    /\ pipeTab' = IF InsertFirst THEN Without(pipeTab, K(lcur.f)) ELSE pipeTab
     /\ done' = Record(done, [f |-> lcur.f, id |-> lcur.id, out |-> "connerr"])
     /\ lpc' = "idle" /\ lcur' = Nil
-    /\ UNCHANGED << lastAct, expiredOnce, fwdV, inq, rightV, timerV, envV, toPeer, toClient, met, got, everDown, everRefused, lifeV >>
+    /\ UNCHANGED << lastAct, expiredOnce, fwdV, inq, rightV, timerV, envV, toPeer, toClient, met, got, everDown, everRefused, everHeld, lifeV >>
 
 RegisterOutgoing ==
     /\ lpc = "reg" /\ K(lcur.f) \in DOMAIN pipeTab
@@ -190,6 +223,14 @@ S5Lookup ==
     /\ lpc' = "send"
     /\ UNCHANGED << pipeV, fwdV, inq, lcur, rightV, timerV, envV, histV, lifeV >>
 
+\* DatagramSink::write found no association for a flow the pipe's table knows: NotFound leaves
+\* LeftPipe::exchange with `?` and the whole multiplexer ends (unreachable in the intended behaviour)
+S5LookupMissEndsMux ==
+    /\ lpc = "write" /\ alive
+    /\ ~(Src[lcur.f] \in DOMAIN assoc /\ Dst[lcur.f] \in assoc[Src[lcur.f]])
+    /\ alive' = FALSE /\ lpc' = "idle" /\ lcur' = Nil
+    /\ UNCHANGED << pipeV, fwdV, inq, rightV, timerV, envV, histV, began >>
+
 \* the datagram leaves through the association of its source, addressed to its destination
 SendOk ==
     /\ lpc = "send" /\ rpc = "idle" /\ Src[lcur.f] \in DOMAIN assoc /\ Src[lcur.f] \notin assocErr
@@ -200,7 +241,7 @@ SendOk ==
     /\ done' = Record(done, [f |-> lcur.f, id |-> lcur.id, out |-> "sent"])
     /\ met' = Recount("out")
     /\ lpc' = "metric"
-    /\ UNCHANGED << pipeV, assoc, gauge, assocErr, rxq, inq, lcur, rightV, timerV, envV, toClient, got, everDown, everRefused, lifeV >>
+    /\ UNCHANGED << pipeV, assoc, gauge, assocErr, rxq, inq, lcur, rightV, timerV, envV, toClient, got, everDown, everRefused, everHeld, lifeV >>
 
 \* the association socket returned its pending error (the relay's port was closed): this
 \* datagram is dropped and not counted, the error is consumed, everything else goes on
@@ -209,13 +250,13 @@ SendErr ==
     /\ assocErr' = assocErr \ {Src[lcur.f]}
     /\ done' = Record(done, [f |-> lcur.f, id |-> lcur.id, out |-> "senderr"])
     /\ lpc' = "idle" /\ lcur' = Nil
-    /\ UNCHANGED << pipeV, assoc, gauge, icmpFly, seen, rxq, inq, rightV, timerV, envV, toPeer, toClient, met, got, everDown, everRefused, lifeV >>
+    /\ UNCHANGED << pipeV, assoc, gauge, icmpFly, seen, rxq, inq, rightV, timerV, envV, toPeer, toClient, met, got, everDown, everRefused, everHeld, lifeV >>
 
 MetricOut ==
     /\ lpc = "metric"
     /\ met' = [met EXCEPT !["out"] = @ + lcur.len]
     /\ lpc' = "idle" /\ lcur' = Nil
-    /\ UNCHANGED << pipeV, fwdV, inq, rightV, timerV, envV, toPeer, toClient, done, got, everDown, everRefused, lifeV >>
+    /\ UNCHANGED << pipeV, fwdV, inq, rightV, timerV, envV, toPeer, toClient, done, got, everDown, everRefused, everHeld, lifeV >>
 
 Return ==
     /\ alive /\ began /\ closing /\ Quiet /\ inq = << >>
@@ -238,13 +279,13 @@ ReadReply(k) ==
                                      len |-> Head(rxq[k]).len, sent |-> ~stalled])
     /\ met' = Recount("in")
     /\ rpc' = IF stalled THEN "regin" ELSE "metricin"
-    /\ UNCHANGED << pipeV, assoc, gauge, assocErr, icmpFly, seen, leftV, rclose, timerV, envV, toPeer, done, got, everDown, everRefused, lifeV >>
+    /\ UNCHANGED << pipeV, assoc, gauge, assocErr, icmpFly, seen, leftV, rclose, timerV, envV, toPeer, done, got, everDown, everRefused, everHeld, lifeV >>
 
 MetricIn ==
     /\ rpc = "metricin"
     /\ met' = [met EXCEPT !["in"] = @ + rcur.len]
     /\ rpc' = "regin"
-    /\ UNCHANGED << pipeV, fwdV, leftV, rcur, rclose, timerV, envV, toPeer, toClient, done, got, everDown, everRefused, lifeV >>
+    /\ UNCHANGED << pipeV, fwdV, leftV, rcur, rclose, timerV, envV, toPeer, toClient, done, got, everDown, everRefused, everHeld, lifeV >>
 
 RegisterIncoming ==
     /\ rpc = "regin"
@@ -305,9 +346,11 @@ ReadClose(k) ==
 ExpiredSet == {k \in DOMAIN pipeTab : pipeTab[k].la < now - T}
 
 Tick ==
-    /\ alive /\ began /\ Quiet /\ now >= tickAt
+    /\ alive /\ began /\ now >= tickAt
+    /\ Quiet \/ (lpc = "tickdue" /\ rpc = "idle" /\ tpc = "idle")
+    /\ lpc' = "idle"
     /\ texp' = ExpiredSet /\ tpc' = "tick"
-    /\ UNCHANGED << pipeV, fwdV, leftV, rightV, tcur, tickAt, envV, histV, lifeV >>
+    /\ UNCHANGED << pipeV, fwdV, inq, lcur, rightV, tcur, tickAt, envV, histV, lifeV >>
 
 Expire(k) ==
     /\ tpc = "tick" /\ k \in texp
@@ -338,11 +381,17 @@ TickEnd ==
 (* environment *)
 
 Adv(d) ==
-    /\ d >= 1 /\ Quiet /\ inq = << >>
+    /\ d >= 1 /\ ((Quiet /\ inq = << >>) \/ (Parked /\ hold))
     /\ now + d <= MaxNow
     /\ (alive /\ began) => now + d <= tickAt + J
     /\ now' = now + d
-    /\ UNCHANGED << pipeV, fwdV, leftV, rightV, timerV, relayDown, refuse, stalled, closing, ops, nextId, histV, lifeV >>
+    /\ UNCHANGED << pipeV, fwdV, leftV, rightV, timerV, relayDown, refuse, hold, stalled, closing, ops, nextId, histV, lifeV >>
+
+\* the SOCKS5 server starts / stops holding its replies
+SetHold(b) ==
+    /\ alive /\ ops < MaxOps /\ ops' = ops + 1 /\ hold # b
+    /\ hold' = b /\ everHeld' = (everHeld \/ b)
+    /\ UNCHANGED << pipeV, fwdV, leftV, rightV, timerV, now, relayDown, refuse, stalled, closing, nextId, toPeer, toClient, done, met, got, everDown, everRefused, lifeV >>
 
 Op1 == ops < MaxOps /\ ops' = ops + 1
 
@@ -350,7 +399,7 @@ ClientDgram(f, id, n) ==
     /\ alive /\ ~closing /\ Op1 /\ Len(inq) < MaxQ
     /\ inq' = Append(inq, [f |-> f, id |-> id, len |-> n])
     /\ nextId' = IF Hist THEN nextId + 1 ELSE nextId
-    /\ UNCHANGED << pipeV, fwdV, lpc, lcur, rightV, timerV, now, relayDown, refuse, stalled, closing, histV, lifeV >>
+    /\ UNCHANGED << pipeV, fwdV, lpc, lcur, rightV, timerV, now, relayDown, refuse, hold, stalled, closing, histV, lifeV >>
 
 \* the relay forwards a datagram of peer Dst[f] to the association of Src[f] (whose address it
 \* has learnt from a datagram of that association)
@@ -360,7 +409,7 @@ PeerReplies(f, id, n) ==
     /\ Len(rxq[K(f)]) < MaxQ
     /\ rxq' = [rxq EXCEPT ![K(f)] = Append(@, [id |-> id, len |-> n])]
     /\ nextId' = IF Hist THEN nextId + 1 ELSE nextId
-    /\ UNCHANGED << pipeV, assoc, gauge, assocErr, icmpFly, seen, leftV, rightV, timerV, now, relayDown, refuse, stalled, closing, histV, lifeV >>
+    /\ UNCHANGED << pipeV, assoc, gauge, assocErr, icmpFly, seen, leftV, rightV, timerV, now, relayDown, refuse, hold, stalled, closing, histV, lifeV >>
 
 \* the relay received datagram id of flow f addressed to a, through the association of src
 PeerGot(a, f, id, n, src) ==
@@ -368,24 +417,24 @@ PeerGot(a, f, id, n, src) ==
                                  /\ toPeer[i].len = n /\ toPeer[i].via = src
     /\ [a |-> a, id |-> id] \notin got
     /\ got' = got \cup {[a |-> a, id |-> id]}
-    /\ UNCHANGED << pipeV, fwdV, leftV, rightV, timerV, envV, toPeer, toClient, done, met, everDown, everRefused, lifeV >>
+    /\ UNCHANGED << pipeV, fwdV, leftV, rightV, timerV, envV, toPeer, toClient, done, met, everDown, everRefused, everHeld, lifeV >>
 
 RelayDown ==
     /\ alive /\ Op1 /\ ~relayDown
     /\ relayDown' = TRUE /\ everDown' = TRUE
-    /\ UNCHANGED << pipeV, fwdV, leftV, rightV, timerV, now, refuse, stalled, closing, nextId, toPeer, toClient, done, met, got, everRefused, lifeV >>
+    /\ UNCHANGED << pipeV, fwdV, leftV, rightV, timerV, now, refuse, hold, stalled, closing, nextId, toPeer, toClient, done, met, got, everRefused, everHeld, lifeV >>
 RelayUp ==
     /\ alive /\ Op1 /\ relayDown
     /\ relayDown' = FALSE
-    /\ UNCHANGED << pipeV, fwdV, leftV, rightV, timerV, now, refuse, stalled, closing, nextId, histV, lifeV >>
+    /\ UNCHANGED << pipeV, fwdV, leftV, rightV, timerV, now, refuse, hold, stalled, closing, nextId, histV, lifeV >>
 SetRefuse(b) ==
     /\ alive /\ Op1 /\ refuse # b
     /\ refuse' = b /\ everRefused' = (everRefused \/ b)
-    /\ UNCHANGED << pipeV, fwdV, leftV, rightV, timerV, now, relayDown, stalled, closing, nextId, toPeer, toClient, done, met, got, everDown, lifeV >>
+    /\ UNCHANGED << pipeV, fwdV, leftV, rightV, timerV, now, relayDown, hold, stalled, closing, nextId, toPeer, toClient, done, met, got, everDown, everHeld, lifeV >>
 SetStalled(b) ==
     /\ alive /\ Op1 /\ stalled # b
     /\ stalled' = b
-    /\ UNCHANGED << pipeV, fwdV, leftV, rightV, timerV, now, relayDown, refuse, closing, nextId, histV, lifeV >>
+    /\ UNCHANGED << pipeV, fwdV, leftV, rightV, timerV, now, relayDown, refuse, hold, closing, nextId, histV, lifeV >>
 
 IcmpLands(src) ==
     /\ src \in icmpFly /\ src \in DOMAIN assoc /\ Quiet
@@ -399,30 +448,33 @@ IcmpLandsBeforeSend(src) ==
 
 ClientCloses ==
     /\ alive /\ ~closing /\ closing' = TRUE
-    /\ UNCHANGED << pipeV, fwdV, leftV, rightV, timerV, now, relayDown, refuse, stalled, ops, nextId, histV, lifeV >>
+    /\ UNCHANGED << pipeV, fwdV, leftV, rightV, timerV, now, relayDown, refuse, hold, stalled, ops, nextId, histV, lifeV >>
 
 --------------------------------------------------------------------------
 
-Left  == Lookup \/ InsertPipeEntry \/ AssocAddPeer \/ AssocOpen \/ AssocOpenErr \/ NewConnOk \/ NewConnErr
-         \/ RegisterOutgoing \/ S5Lookup \/ SendOk \/ SendErr \/ MetricOut
+Left  == Lookup \/ InsertPipeEntry \/ AssocAddPeer \/ AssocOpenStart \/ AssocOpenDone \/ AssocOpenErr
+         \/ OpenCancelled \/ NewConnCancelled \/ NewConnOk \/ NewConnErr
+         \/ RegisterOutgoing \/ S5Lookup \/ S5LookupMissEndsMux \/ SendOk \/ SendErr \/ MetricOut
 Right == (\E k \in AllKeys : ReadReply(k)) \/ MetricIn \/ RegisterIncoming \/ DnsDone
          \/ (\E k \in AllKeys : DnsPeerClosed(Rev(k))) \/ (\E s \in Sources : DnsAssocRelease(s))
          \/ (\E s \in Sources : AssocError(s)) \/ (\E k \in AllKeys : ReadClose(k))
 Timer == Tick \/ (\E k \in AllKeys : Expire(k) \/ ExpirePeerClosed(Rev(k))) \/ (\E s \in Sources : ExpireAssocRelease(s)) \/ TickEnd
 Impl  == Begin \/ Left \/ Right \/ Timer \/ Return
 
-EnvQuiet == Quiet /\ began
+\* the harness injects between polls: every chain idle, or the left pipe parked in a held handshake
+EnvQuiet == began /\ (Quiet \/ (Parked /\ hold))
 EnvDgram  == EnvQuiet /\ \E f \in Flows : ClientDgram(f, nextId, f)
 EnvReply  == EnvQuiet /\ \E f \in Flows : PeerReplies(f, nextId, f)
 EnvRelay  == EnvQuiet /\ inq = << >> /\ (RelayDown \/ RelayUp)
 EnvRefuse == EnvQuiet /\ inq = << >> /\ \E b \in BOOLEAN : SetRefuse(b)
+EnvHold   == WithHold /\ EnvQuiet /\ \E b \in BOOLEAN : SetHold(b)
 EnvStall  == EnvQuiet /\ inq = << >> /\ \E b \in BOOLEAN : SetStalled(b)
 EnvIcmp   == \E s \in Sources : IcmpLands(s) \/ IcmpLandsBeforeSend(s)
 EnvClose  == EnvQuiet /\ inq = << >> /\ ClientCloses
 EnvAdv    == Adv(1)
 \* the stalled client (EnvStall) is explored exhaustively with the direct upstream (UdpMux.tla), where
 \* the right pipe is the same code; here it is only part of the recorded executions
-Env == EnvDgram \/ EnvReply \/ EnvRelay \/ EnvRefuse \/ EnvIcmp \/ EnvClose \/ EnvAdv
+Env == EnvDgram \/ EnvReply \/ EnvRelay \/ EnvRefuse \/ EnvHold \/ EnvIcmp \/ EnvClose \/ EnvAdv
 
 Next == Impl \/ Env
 Spec == Init /\ [][Next]_vars
@@ -435,7 +487,7 @@ LivePeers(src) == {k.d : k \in {x \in DOMAIN pipeTab : x.s = src}}
 TypeOK ==
     /\ DOMAIN pipeTab \subseteq AllKeys /\ DOMAIN assoc \subseteq Sources
     /\ gauge \in 0..Cardinality(Sources)
-    /\ lpc \in {"idle", "ins", "open", "conn", "connerr", "reg", "write", "send", "metric"}
+    /\ lpc \in {"idle", "ins", "open", "opening", "cancelled", "tickdue", "conn", "connerr", "reg", "write", "send", "metric"}
     /\ rpc \in {"idle", "metricin", "regin", "dns1", "dns2", "dnsrel", "close"}
     /\ tpc \in {"idle", "tick", "closed", "rel"}
     /\ assocErr \subseteq DOMAIN assoc /\ icmpFly \subseteq DOMAIN assoc /\ seen \subseteq DOMAIN assoc
@@ -452,12 +504,14 @@ SiblingsUndisturbed ==
     \A src \in Sources :
         LET live == LivePeers(src)
             mine == IF src \in DOMAIN assoc THEN assoc[src] ELSE {}
-            inhand == (IF lpc \in {"open", "connerr"} /\ Src[lcur.f] = src THEN {Dst[lcur.f]} ELSE {})
+            \* in the pipe's table but not (yet) a peer / a peer but not yet in the pipe's table
+            inhand == (IF InsertFirst /\ lpc \in {"open", "opening", "cancelled", "connerr"} /\ Src[lcur.f] = src THEN {Dst[lcur.f]} ELSE {})
+            arriving == (IF ~InsertFirst /\ lpc \in {"conn", "ins"} /\ Src[lcur.f] = src THEN {Dst[lcur.f]} ELSE {})
             leaving == (IF tpc = "closed" /\ tcur.s = src THEN {tcur.d} ELSE {})
                        \cup (IF rpc = "dns2" /\ rcur.lab.d = src THEN {rcur.lab.s} ELSE {})
             closing_ == {k.d : k \in {x \in rclose : x.s = src}}
         IN alive => /\ ((live \ inhand) \ closing_) \subseteq mine
-                    /\ mine \subseteq live \cup leaving
+                    /\ mine \subseteq live \cup leaving \cup arriving
 
 NoEmptyAssoc ==
     \A src \in DOMAIN assoc : assoc[src] = {} => (tpc = "rel" /\ tcur.s = src) \/ (rpc = "dnsrel" /\ rcur.lab.d = src)
@@ -481,7 +535,8 @@ FlowErrorsAreLocal ==
     /\ \A i \in 1..Len(done) :
          /\ done[i].out = "connerr" => everRefused
          /\ done[i].out = "senderr" => everDown
-         /\ (~everRefused /\ ~everDown) => done[i].out = "sent"
+         /\ done[i].out = "cancelled" => everHeld
+         /\ (~everRefused /\ ~everDown /\ ~everHeld) => done[i].out = "sent"
 
 RECURSIVE SumAll(_), SumSent(_)
 SumAll(h)  == IF h = << >> THEN 0 ELSE Head(h).len + SumAll(Tail(h))
